@@ -102,11 +102,11 @@ void mmio_target(uint64_t sel, uint64_t val, uint16_t& off, uint16_t& v) {
         off = 0x20 + 0x10 * (uint16_t)(sel / 40 % 2); // timer config: TS = 0, CM 0..3, PC, MU, RES + unmodelled bits
         v = (uint16_t)(((val & 3) << 2) | (val & 0x0700) | (val & 0xF8E0 & (sel >> 8)));
         break;
-    case 16:
-        off = 0x22 + 0x10 * (uint16_t)(sel / 40 % 2);
+    case 16: // event-count tick, or the counter mirror cells themselves (directly writable; with MU = 0 nothing refreshes them)
+        off = (uint16_t[]){0x22, 0x28, 0x2A}[sel / 80 % 3] + 0x10 * (uint16_t)(sel / 40 % 2);
         break;
     case 17:
-        off = 0x184;
+        off = (sel / 40 % 2) ? 0x18C : 0x184;
         break;
     case 18:
         off = 0x1BE;
